@@ -66,6 +66,14 @@ Definition bs_fac_core (sc4 : T) (fac0 pow_sc3 : T) : T :=       (* fac0 = stepC
 Definition bs_fac (sc2 sc4 : T) (pow_err pow_sc3 : T) : T := bs_fac_core sc4 (div sc2 pow_err) pow_sc3.
 Definition bs_optimal_step (sc2 sc4 pow_err pow_sc3 dt : T) : T := nabs N (mul dt (bs_fac sc2 sc4 pow_err pow_sc3)).
 
+(* the clamp at the END of reb_integrator_bs_step, applied to the step PROPOSED for the next call (ri_bs->dt_proposed):
+        dt = fabs(dt);  if (min_dt != 0.0 && dt < min_dt) dt = min_dt;  if (max_dt != 0.0 && dt > max_dt) dt = max_dt;  if (!forward) dt = -dt;
+   The step ATTEMPTED by a call is the argument it was given, unclamped (the callers advance time by exactly that amount). *)
+Definition bs_clamp (min_dt max_dt dtabs : T) (forward : bool) : T :=
+  let d1 := if negb (neqb N min_dt (nzero N)) && ltb dtabs min_dt then min_dt else dtabs in
+  let d2 := if negb (neqb N max_dt (nzero N)) && ltb max_dt d1 then max_dt else d1 in
+  if forward then d2 else nneg N d2.
+
 (* the decision taken after column k (d = k - target_iter), for error <= 1e25:
    returns (loop continues, reject) ; ratio2 = the squared sequence ratio the code compares the error with *)
 Definition bs_decide (d : Z) (error ratio2 : T) (target_gt1 prev_rejected first_or_last : bool) : bool * bool :=
